@@ -12,12 +12,16 @@ open LV LV.HeaderEnc LV.HeaderReader LV.MailboxEnc
 def encShaped (t : Bytes) : Bool :=
   t.length ≥ 4 && [61, 63].isPrefixOf t && t.drop (t.length - 2) == [63, 61]
 
-/-- a word: visible ASCII (33..126), non-empty, at most 75 octets, not of the shape `=?…?=` -/
-structure WordOk (t : Bytes) : Prop where
+/-- a word for the line limit `lim`: visible ASCII (33..126), non-empty, shorter than `lim` (so that it fits on a
+    continuation line after its blank), not of the shape `=?…?=` -/
+structure WordOkL (lim : Nat) (t : Bytes) : Prop where
   vis : ∀ b ∈ t, 33 ≤ b.toNat ∧ b.toNat ≤ 126
   ne : t ≠ []
-  len : t.length ≤ 75
+  len : t.length + 1 ≤ lim
   plainShape : encShaped t = false
+
+/-- a word for the 78-octet rule: at most 75 octets -/
+abbrev WordOk (t : Bytes) : Prop := WordOkL 76 t
 
 /-- words separated by single spaces -/
 def joinSp : List Bytes → Bytes
@@ -129,7 +133,7 @@ theorem wsTokens_word_sp (t : Bytes) (hns : ∀ b ∈ t, b ≠ 32) (hnt : ∀ b 
     rw [ih (fun x hx => hns x (by simp [hx])) (fun x hx => hnt x (by simp [hx]))]
     simp
 
-theorem marker_word {t : Bytes} (h : WordOk t) : hasEncMarker t = false ∧ hasEncMarker (t ++ [32]) = false := by
+theorem marker_word {lim : Nat} {t : Bytes} (h : WordOkL lim t) : hasEncMarker t = false ∧ hasEncMarker (t ++ [32]) = false := by
   have hs := h.plainShape
   unfold encShaped at hs
   constructor
@@ -142,7 +146,7 @@ theorem marker_word {t : Bytes} (h : WordOk t) : hasEncMarker t = false ∧ hasE
     rw [show (decide (t.length ≥ 4) && [61, 63].isPrefixOf t && t.drop (t.length - 2) == [63, 61]) = false from hs]
     decide
 
-theorem allowed_word {t : Bytes} (h : WordOk t) :
+theorem allowed_word {lim : Nat} {t : Bytes} (h : WordOkL lim t) :
     t.all (allowedChar true) = true ∧ (t ++ [32]).all (allowedChar true) = true := by
   have h1 : t.all (allowedChar true) = true := by
     rw [List.all_eq_true]
@@ -156,15 +160,15 @@ theorem allowed_word {t : Bytes} (h : WordOk t) :
 
 /-! ## the writer after a word -/
 
-/-- the writer between two words: finished lines within 78, the current line within 78, `sp` spaces pending -/
-structure AfterWord (c0 sp : Nat) (w : W) : Prop where
-  tracks : Tracks 78 c0 w
-  len : w.lineLen ≤ 78
+/-- the writer between two words: finished lines within `lim`, the current line within `lim`, `sp` spaces pending -/
+structure AfterWord (lim c0 sp : Nat) (w : W) : Prop where
+  tracks : Tracks lim c0 w
+  len : w.lineLen ≤ lim
   sp : w.spaces = sp
   nl : w.canNL = true
 
-theorem emit_next {c0 : Nat} {w : W} (h : AfterWord c0 1 w) (t : Bytes) (ht : WordOk t) :
-    AfterWord c0 0 (w.emitTok t) := by
+theorem emit_next {lim c0 : Nat} (h78 : 78 ≤ lim) {w : W} (h : AfterWord lim c0 1 w) (t : Bytes) (ht : WordOkL lim t) :
+    AfterWord lim c0 0 (w.emitTok t) := by
   have hp := vis_plain ht.vis
   have hta := trimEnd_nospace t (vis_nospace ht.vis)
   have hlen := ht.len
@@ -193,7 +197,7 @@ theorem emit_next {c0 : Nat} {w : W} (h : AfterWord c0 1 w) (t : Bytes) (ht : Wo
     have h76 : ¬ (w.lineLen + w.spaces + t.length > 76) := fun hh => this (decide_eq_true hh)
     omega
 
-theorem space_after {c0 : Nat} {w : W} (h : AfterWord c0 0 w) : AfterWord c0 1 w.space :=
+theorem space_after {lim c0 : Nat} {w : W} (h : AfterWord lim c0 0 w) : AfterWord lim c0 1 w.space :=
   ⟨by intro rest; simpa [W.space, W.bytes] using h.tracks rest, by simpa [W.space] using h.len,
    by simp [W.space, h.sp], by simpa [W.space] using h.nl⟩
 
@@ -203,8 +207,8 @@ theorem hvWords_step (w : W) (word : Bytes) (ws : List Bytes)
   simp [hvWords, opts, ha, hm, flushBuf]
 
 /-- the remaining words, each written after one pending space -/
-theorem rest_words {c0 : Nat} : ∀ (ts : List Bytes) {w : W}, AfterWord c0 0 w → (∀ t ∈ ts, WordOk t) →
-    ∃ w', hvWords opts w.space [] (splitInclusive [] (joinSp ts)) = w' ∧ (ts ≠ [] → AfterWord c0 0 w')
+theorem rest_words {lim c0 : Nat} (h78 : 78 ≤ lim) : ∀ (ts : List Bytes) {w : W}, AfterWord lim c0 0 w → (∀ t ∈ ts, WordOkL lim t) →
+    ∃ w', hvWords opts w.space [] (splitInclusive [] (joinSp ts)) = w' ∧ (ts ≠ [] → AfterWord lim c0 0 w')
   | [], w, _, _ => ⟨_, rfl, fun h => absurd rfl h⟩
   | [t], w, h, ht => by
     have hw := ht t (by simp)
@@ -213,34 +217,34 @@ theorem rest_words {c0 : Nat} : ∀ (ts : List Bytes) {w : W}, AfterWord c0 0 w 
     rw [splitInclusive_last t (vis_nospace hw.vis) hw.ne, List.reverse_nil, List.nil_append,
       hvWords_step _ _ _ (allowed_word hw).1 (marker_word hw).1, foldWrite_word _ t (vis_nospace hw.vis) hw.ne]
     simp only [hvWords, flushBuf, List.isEmpty_nil, if_true]
-    exact emit_next (space_after h) t hw
+    exact emit_next h78 (space_after h) t hw
   | t :: t2 :: ts, w, h, ht => by
     have hw := ht t (by simp)
     simp only [joinSp]
     rw [splitInclusive_word t (vis_nospace hw.vis), List.reverse_nil, List.nil_append,
       hvWords_step _ _ _ (allowed_word hw).2 (marker_word hw).2, foldWrite_word_sp _ t (vis_nospace hw.vis) hw.ne]
-    obtain ⟨w', e, hw'⟩ := rest_words (t2 :: ts) (emit_next (space_after h) t hw) (fun x hx => ht x (by simp [hx]))
+    obtain ⟨w', e, hw'⟩ := rest_words h78 (t2 :: ts) (emit_next h78 (space_after h) t hw) (fun x hx => ht x (by simp [hx]))
     exact ⟨w', e, fun _ => hw' (by simp)⟩
 
 /-- **A text value made of words is folded within the limits.** For every list of words (visible ASCII, each of 1..75
     octets, none of the shape `=?…?=`) separated by single spaces, the first one fitting after the field name, every line
     of what `HeaderValue::new` writes after `Name: ` — the name included — is at most 78 octets long, however long the
     value. -/
-theorem text_value_lines (nameLen : Nat) (ts : List Bytes) (hne : ts ≠ []) (ht : ∀ t ∈ ts, WordOk t)
-    (hfirst : ∀ t, ts.head? = some t → nameLen + 2 + t.length ≤ 78) :
-    linesOkGo true 78 (nameLen + 2) (encodeValue opts nameLen (joinSp ts) ++ [13, 10]) = true := by
-  have fin : ∀ w : W, AfterWord (nameLen + 2) 0 w →
-      linesOkGo true 78 (nameLen + 2) (w.flushSpaces.bytes ++ [13, 10]) = true := by
+theorem text_value_lines_lim (lim : Nat) (h78 : 78 ≤ lim) (nameLen : Nat) (ts : List Bytes) (hne : ts ≠ []) (ht : ∀ t ∈ ts, WordOkL lim t)
+    (hfirst : ∀ t, ts.head? = some t → nameLen + 2 + t.length ≤ lim) :
+    linesOkGo true lim (nameLen + 2) (encodeValue opts nameLen (joinSp ts) ++ [13, 10]) = true := by
+  have fin : ∀ w : W, AfterWord lim (nameLen + 2) 0 w →
+      linesOkGo true lim (nameLen + 2) (w.flushSpaces.bytes ++ [13, 10]) = true := by
     intro w h
     have e : w.flushSpaces.bytes = w.bytes := by simp [W.flushSpaces, W.bytes, h.sp]
     rw [e, h.tracks, linesOkGo_crlf]
     have := h.len
     simp only [linesOkGo, Nat.zero_le, decide_true, Bool.and_true, decide_eq_true_eq]
     omega
-  have w0 : Tracks 78 (nameLen + 2) ⟨[], nameLen + 2, 0, false⟩ := by intro rest; simp [W.bytes]
+  have w0 : Tracks lim (nameLen + 2) ⟨[], nameLen + 2, 0, false⟩ := by intro rest; simp [W.bytes]
   -- the first word: written right after the field name, never folded
-  have first : ∀ t, WordOk t → nameLen + 2 + t.length ≤ 78 →
-      AfterWord (nameLen + 2) 0 ((⟨[], nameLen + 2, 0, false⟩ : W).emitTok t) := by
+  have first : ∀ t, WordOkL lim t → nameLen + 2 + t.length ≤ lim →
+      AfterWord lim (nameLen + 2) 0 ((⟨[], nameLen + 2, 0, false⟩ : W).emitTok t) := by
     intro t hw hf
     have hta := trimEnd_nospace t (vis_nospace hw.vis)
     have hne' : (trimEnd t).isEmpty = false := by
@@ -270,8 +274,14 @@ theorem text_value_lines (nameLen : Nat) (ts : List Bytes) (hne : ts ≠ []) (ht
       simp only [joinSp]
       rw [splitInclusive_word t (vis_nospace hw.vis), List.reverse_nil, List.nil_append,
         hvWords_step _ _ _ (allowed_word hw).2 (marker_word hw).2, foldWrite_word_sp _ t (vis_nospace hw.vis) hw.ne]
-      obtain ⟨w', e, hw'⟩ := rest_words (t2 :: ts) (first t hw hf) (fun x hx => ht x (by simp [hx]))
+      obtain ⟨w', e, hw'⟩ := rest_words h78 (t2 :: ts) (first t hw hf) (fun x hx => ht x (by simp [hx]))
       rw [e]
       exact fin _ (hw' (by simp))
+
+/-- the 78-octet form -/
+theorem text_value_lines (nameLen : Nat) (ts : List Bytes) (hne : ts ≠ []) (ht : ∀ t ∈ ts, WordOkL 78 t)
+    (hfirst : ∀ t, ts.head? = some t → nameLen + 2 + t.length ≤ 78) :
+    linesOkGo true 78 (nameLen + 2) (encodeValue opts nameLen (joinSp ts) ++ [13, 10]) = true :=
+  text_value_lines_lim 78 (Nat.le_refl _) nameLen ts hne ht hfirst
 
 end LV.TextFold
